@@ -101,6 +101,25 @@ def run(prop, tier, replay=None, mc=None):
                         path = os.path.join(vlib.REPLAYS, "%s-seed%d-%s-variant%d.json" % (prop, vlib.seed(), os.path.basename(os.path.dirname(src)), b["k"]))
                         shutil.copy(src, path)
                     v.violation("%s [%s; base op %s]" % (what, b["desc"], b["i"]), {"clause": what, "variant": b["desc"]}, replay=path)
+    extra_cov = {}
+    if prop == "C06" and not replay:
+        # stepwise: single-replica histories with heavy mempool-only traffic; every recorded CheckTx is judged by the C06 clause of
+        # RigoProps.tla (nothing block execution reads may change: ledgers, parameters, block limiter, EVM bridge state) and its result
+        # is compared with the prediction of RigoCore.tla's scratch view (RigoConf.tla)
+        n = 6 if tier == "quick" else 40
+        tr = os.path.join(vlib.scratch(), "c06-mempool.ndjson")
+        sdir = vlib.sub("sc-mempool")
+        vlib.driver_json(["random", "-out", tr, "-tmp", tmp, "-seed", vlib.seed() * 91 + 7, "-n", n, "-blocks", 30, "-maxtx", 5,
+                          "-pcheck", "0.45", "-evm", "-scenarios", sdir])
+        tr2 = os.path.join(vlib.scratch(), "c06-directed.ndjson")
+        sdir2 = vlib.sub("sc-mempool-directed")
+        vlib.driver_json(["directed", "-out", tr2, "-tmp", tmp, "-seed", vlib.seed(), "-scenarios", sdir2, "-evm",
+                          "-names", "checktx_not_delivered,limiter_block,query_in_flight"])
+        st = appcommon.collect(v, "C06", [tr, tr2], [sdir, sdir2])
+        nchk = sum(1 for f in (tr, tr2) for x in open(f) if '"ev":"CheckTx"' in x)
+        if nchk < 30 and not v.violations:
+            raise vlib.MachineryError("only %d mempool checks were recorded (dead driver)" % nchk)
+        extra_cov = {"stepwise_checktx_calls_judged": nchk, "stepwise_histories": st["traces"], "model_steps_compared": st["model_steps"]}
     if not replay and tot["pairs"] < 50 and not v.violations:
         raise vlib.MachineryError("only %d calls were compared (dead driver)" % tot["pairs"])
     cov = {
@@ -111,6 +130,7 @@ def run(prop, tier, replay=None, mc=None):
         "base_histories": tot["scenarios"], "call_kinds_compared": sorted(kinds),
         "samples": samples or [{"note": "no variant recorded"}],
     }
+    cov.update(extra_cov)
     mcres = mc(tier) if mc else None
     if mcres:
         cov.update(mcres)
